@@ -3,6 +3,7 @@ properties (C01, C09, C10, C11).  Nothing in tbot is patched; `FragIO` is an ord
 import fcntl, os, pty, random, select, struct, subprocess, sys, tempfile, termios, time
 
 import tbot
+import verbosity
 import tbot.error
 from tbot.machine import channel, connector, linux
 from tbot.machine.channel import channel as tch
@@ -49,6 +50,7 @@ class FragIO(tch.ChannelIO):
         # a transport may take fewer bytes than it is given (`wmax`: how many at most this time)
         n = os.write(self.master, buf[: self.wmax()] if getattr(self, "wmax", None) else buf)
         self.tx += buf[:n]
+        verbosity.through_debug_log(self, bytes(buf), True)
         return n
 
     def _fill(self, timeout):
@@ -78,7 +80,7 @@ class FragIO(tch.ChannelIO):
         out = bytes(self.buf[:k])
         del self.buf[:k]
         self.pieces.append(k)
-        return out
+        return verbosity.through_debug_log(self, out)
 
     def close(self) -> None:
         if self._closed:
